@@ -98,6 +98,47 @@ def _vector_impls(F):
     return out
 
 
+def _helper_ptr_ok(F, g):
+    """Does local helper g(elements, index) return elements.as_[mut_]ptr().add(index)?"""
+    if g is None or g.argc < 2:
+        return None
+    for bi, si, n in g.iter_nodes():
+        if n["k"] == "call" and n["d"] == [0] or (n["k"] == "=" and n["p"] == [0]):
+            e = g.expr({"p": [0]})
+            if e[0] == "call" and e[1].endswith("::add") and len(e[2]) == 2:
+                base, off = e[2]
+                if off[0] == "param" and base[0] == "call" and (base[1].endswith("::as_ptr") or base[1].endswith("::as_mut_ptr")) \
+                        and base[2] and base[2][0][0] == "param":
+                    return (base[2][0][1], off[1])  # (slice param, index param)
+    return None
+
+
+def _helper_unchecked_ok(F, g):
+    """Does local helper g(elements, .., idx) access elements.get_unchecked[_mut](idx)? -> (slice param, idx param)"""
+    if g is None:
+        return None
+    for bi, t in g.calls():
+        c = F.callee_of(t)
+        if c and "get_unchecked" in c["p"] and len(t["args"]) == 2:
+            a0, a1 = g.root(t["args"][0]), g.root(t["args"][1])
+            if a0[0] == "param" and a1[0] == "param":
+                return (a0[1], a1[1])
+    return None
+
+
+def _self_or_field(b, operand, is_db, store):
+    """Does the operand denote the wrapper's own receiver (self, self.as_slice(), or for DoubleBuf the right side)?"""
+    r = b.root(operand)
+    if r[0] == "call":
+        c_name = (r[2]["f"].get("c") or {}).get("p", "")
+        if c_name.endswith("::as_slice") or c_name.endswith("::as_mut_slice") or c_name.endswith("Deref::deref") or c_name.endswith("DerefMut::deref_mut"):
+            return _self_or_field(b, r[2]["args"][0], is_db, store)
+        return False
+    if is_db:
+        return r[0] == "field" and r[1] == ("param", 1) and r[2] and r[2][-1] == ("f", 1 if store else 0)
+    return r == ("param", 1)
+
+
 def r_primw(F, cfg):
     R = Result("R-PRIMW", "SIMD load/store primitives move exactly the bytes their name promises; array wrappers pass as_ptr().add(index) of their own receiver")
     extents = {}
@@ -231,6 +272,13 @@ def r_primw(F, cfg):
                             good = True
                         else:
                             why = "get_unchecked on field %s with index %s" % (fld, ir)
+                    elif c["local"] and c.get("tr") is None:
+                        hu = _helper_unchecked_ok(F, F.bodies.get(c.get("res", c["id"])))
+                        if hu and hu[0] - 1 < len(t["args"]) and hu[1] - 1 < len(t["args"]):
+                            if _self_or_field(mb, t["args"][hu[0] - 1], True, store) and mb.root(t["args"][hu[1] - 1]) == ("param", idx_param):
+                                good = True
+                            else:
+                                why = "helper %s is not applied to the right DoubleBuf side with the own index" % c["p"]
                 else:
                     if c.get("tr") in VECTOR_TRAITS and cname in PRIM_K:
                         if cname != name:
@@ -244,6 +292,16 @@ def r_primw(F, cfg):
                             if off == ("param", idx_param) and base[0] == "call" and (base[1].endswith("::as_ptr") or base[1].endswith("::as_mut_ptr")):
                                 if base[2] and base[2][0] == ("param", 1):
                                     okp = True
+                        else:
+                            # a private helper computing the element pointer: element_ptr(self, index)
+                            pr = mb.root(t["args"][0])
+                            if pr[0] == "call":
+                                hc = F.callee_of(pr[2])
+                                if hc and hc["local"]:
+                                    hp = _helper_ptr_ok(F, F.bodies.get(hc.get("res", hc["id"])))
+                                    if hp and hp[0] - 1 < len(pr[2]["args"]) and hp[1] - 1 < len(pr[2]["args"]):
+                                        if _self_or_field(mb, pr[2]["args"][hp[0] - 1], False, store) and mb.root(pr[2]["args"][hp[1] - 1]) == ("param", idx_param):
+                                            okp = True
                         if okp:
                             good = True
                         else:
@@ -255,6 +313,13 @@ def r_primw(F, cfg):
                             good = True
                         else:
                             why = "get_unchecked(%s) on %s" % (ir, rr)
+                    elif c["local"] and c.get("tr") is None:
+                        hu = _helper_unchecked_ok(F, F.bodies.get(c.get("res", c["id"])))
+                        if hu and hu[0] - 1 < len(t["args"]) and hu[1] - 1 < len(t["args"]):
+                            if _self_or_field(mb, t["args"][hu[0] - 1], False, store) and mb.root(t["args"][hu[1] - 1]) == ("param", idx_param):
+                                good = True
+                            else:
+                                why = "helper %s is not applied to the own receiver with the own index" % c["p"]
             if good:
                 R.ok({"wrapper": key, "forwards": "own receiver, own index"}, nontrivial=True, sample_cap=40)
             else:
